@@ -5,6 +5,7 @@ CONSTANTS
   MaxNow = 6
   MaxStep = 3
   MaxOps = 4
+  Chain = "none"
   Variant = "lateadd"
 INVARIANTS Accepted
 CHECK_DEADLOCK FALSE
